@@ -1127,6 +1127,19 @@ for a triangle: count field + 3 indices (+ count field + 6 texcoords). -/
 def faceSizeTri (lp : List (Bytes × SType × SType)) : Nat :=
   (lp.map (fun (n, c, t) => c.size + (if n = nm "texcoord" then 6 else 3) * t.size)).sum
 
+/-- ASCII body of a written file: as many non-empty lines as records (vertex records of an element without properties
+are empty, hence invisible), the first `nv` of them holding exactly one token per vertex property, every face line
+holding `1 + 3` (+ `1 + 6`) tokens -/
+def asciiBodyDescribed (body : Bytes) (nprops nv nf : Nat) (faceToks : Nat) : Bool :=
+  let lines := (scanLines body).filter (fun l => !l.isEmpty)
+  let nvLines := if nprops = 0 then 0 else nv
+  lines.length = nvLines + nf &&
+  (lines.take nvLines).all (fun l => (fields l).length = nprops) &&
+  (lines.drop nvLines).all (fun l => (fields l).length = faceToks)
+
+def faceToksTri (lp : List (Bytes × SType × SType)) : Nat :=
+  (lp.map (fun (n, _, _) => 1 + (if n = nm "texcoord" then 6 else 3))).sum
+
 def HeaderDescribes (bytes : Bytes) (nv nf : Nat) (tri : Bool) : Bool :=
   match parseHeader bytes with
   | .error _ => false
@@ -1140,12 +1153,16 @@ def HeaderDescribes (bytes : Bytes) (nv nf : Nat) (tri : Bool) : Bool :=
        | some props =>
          let vsize := (props.map (fun p => p.2.size)).sum
          match findElement hdr (nm "face") with
-         | none => !tri && (hdr.format = .ascii || body.length = nv * vsize)
+         | none =>
+           !tri && (if hdr.format = .ascii then asciiBodyDescribed body props.length nv 0 0
+                    else body.length = nv * vsize)
          | some fe =>
            tri && fe.count = nf &&
            (match listProps fe.props with
             | none => false
-            | some lp => hdr.format = .ascii || body.length = nv * vsize + nf * faceSizeTri lp))
+            | some lp =>
+              if hdr.format = .ascii then asciiBodyDescribed body props.length nv nf (faceToksTri lp)
+              else body.length = nv * vsize + nf * faceSizeTri lp))
 
 end Ply
 end PolyVerif
